@@ -32,6 +32,7 @@ void rec_reset(const char *drv, long exec_id, unsigned long seed);   /* new exec
 void rec_quiesce(void);                     /* emit quiesce (driver has cleared everything) */
 void rec_alloc_logging(int on);             /* switch allocator event logging (on by default) */
 long rec_live_blocks(void);
+extern int rec_ret_caller_buf;
 void gw_load(const char *exe); void gw_snapshot(void); void gw_diff_emit(void);   /* global-write detector */
 size_t rec_block_size(void *p);                 /* size the allocator was asked for (0 if unknown) */
 
